@@ -66,9 +66,6 @@ fn family(name: &str, ctx: &str, prefix: &str) -> Option<&'static str> {
         return Some("typed-prefix-contains-a-pipe-character");
     }
     let pc: Vec<char> = prefix.chars().collect();
-    if pc.windows(2).any(|w| w[0] == ' ' && w[1] == '~') {
-        return Some("typed-prefix-has-a-blank-followed-by-tilde");
-    }
     if ctx == "unq" && pc.windows(2).any(|w| w[0] == '$' && (w[1].is_ascii_alphabetic() || w[1] == '_')) {
         return Some("unquoted:prefix-that-looks-like-a-variable-reference-is-completed-unescaped");
     }
